@@ -113,6 +113,28 @@ fn main() {
       println!("strbif cases={} failures={}", cases, failures.len());
       for f in failures { println!("FAIL {}", f); }
     }
+    Some("model") => {
+      // model <xml-file> <invocable-name> <feel-context-text>: parse the model, build its evaluator, evaluate the invocable
+      let xml = std::fs::read_to_string(&args[2]).unwrap_or_default();
+      let inv = args.get(3).cloned().unwrap_or_default();
+      let ctx_text = args.get(4).cloned().unwrap_or("{}".to_string());
+      let r = std::panic::catch_unwind(move || {
+        match dmntk_model::parse(&xml) {
+          Err(e) => format!("PARSE-ERROR {}", e),
+          Ok(defs) => match dmntk_model_evaluator::ModelEvaluator::new(&defs) {
+            Err(e) => format!("BUILD-ERROR {}", e),
+            Ok(me) => {
+              let scope = Scope::default();
+              match dmntk_feel_evaluator::evaluate_context(&scope, &ctx_text) {
+                Err(e) => format!("CONTEXT-ERROR {}", e),
+                Ok(ctx) => format!("VALUE {}", me.evaluate_invocable(&inv, &ctx)),
+              }
+            }
+          },
+        }
+      });
+      println!("{}", r.unwrap_or("PANIC".to_string()));
+    }
     _ => eprintln!("usage"),
   }
 }
